@@ -67,12 +67,13 @@ def scenarios():
 
 def generate(seeds=(1, 2, 3), tier='quick'):
     g = GenFile(PID)
-    stats, trees, ctxs = {}, {}, {}
+    stats, trees, ctxs, fnodes = {}, {}, {}, {}
     for name, scen in scenarios().items():
         sw, outs, st = tie_check(scen, seeds)
         stats[name] = st
         trees[name] = sw.tree(outs[0])
         ctxs[name] = sw.ctx
+        fnodes[name] = outs[0].cols[0]
         g.add_def(name, trees[name], f'traced from /repo: scenario {name}; variables {sw.ctx.vars}; symbols {sw.ctx.syms}')
 
     def F(name, a, b, mi=(0, 0)):
@@ -106,6 +107,26 @@ def generate(seeds=(1, 2, 3), tier='quick'):
                 else:
                     g.thm_deriv(f'{n}_{side}', rv, envt, 0, 'x', n, trees[n], F(n, pt, 't', (1, 0)), hyps=hy,
                                 what=f'IBVP1D {m.upper()}{sfx}: du/dx({pt}, t) = prescribed boundary derivative for all t, every smooth network')
+    # operation-order model: the clauses whose value is reproduced EXACTLY in every arithmetic with the IEEE-754 identities - the two
+    # x-edges of the rectangle and the initial profile of the space-time condition (the y-edges and the Dirichlet ends in time are of the
+    # form a + (F - a): exact over the reals, one rounding away in floating point, and not claimed here)
+    from .. import fex as FX
+    specs = []
+    for sfx in ['', '_u0', '_u1']:
+        specs += [(f'bvp2d{sfx}_edge_x0_exact', 'bvp2d' + sfx, [('x', 'x0')], FX.app_of('F', 'x0', 'y'), 'DirichletBVP2D: u(x0, y) is exactly F(x0, y)'),
+                  (f'bvp2d{sfx}_edge_x1_exact', 'bvp2d' + sfx, [('x', 'x1')], FX.app_of('F', 'x1', 'y'), 'DirichletBVP2D: u(x1, y) is exactly F(x1, y)')]
+        for m in ('dd', 'dn', 'nd', 'nn'):
+            specs.append((f'ibvp_{m}{sfx}_initial_exact', f'ibvp_{m}{sfx}', [('t', 'tm')], FX.app_of('F', 'x', 'tm'), f'IBVP1D {m.upper()}: u(x, t_min) is exactly u0(x)'))
+    # ... and for the remaining Dirichlet clauses the NETWORK is eliminated exactly: the value at the boundary point is the same for
+    # every network ("independent of the network", without rounding)
+    for sfx in ['', '_u0', '_u1']:
+        specs += [(f'bvp2d{sfx}_edge_y0_network_free', 'bvp2d' + sfx, [('y', 'y0')], 'network-free', 'DirichletBVP2D: u(x, y0) is exactly the same for every network'),
+                  (f'bvp2d{sfx}_edge_y1_network_free', 'bvp2d' + sfx, [('y', 'y1')], 'network-free', 'DirichletBVP2D: u(x, y1) is exactly the same for every network')]
+        for m, sides in (('dd', ('x0', 'x1')), ('dn', ('x0',)), ('nd', ('x1',))):
+            for pt in sides:
+                specs.append((f'ibvp_{m}{sfx}_{pt}_network_free', f'ibvp_{m}{sfx}', [('x', pt)], 'network-free',
+                              f'IBVP1D {m.upper()}: u({pt}, t) is exactly the same for every network'))
+    FX.exact_part(g, PID, fnodes, ctxs, specs)
     return g, stats
 
 
